@@ -403,3 +403,45 @@ func init() {
 		},
 	})
 }
+
+func init() {
+	replayDrivers = append(replayDrivers, replayDriver{
+		match: func(n string) bool {
+			return strings.Contains(n, "writeHTMLLoginPage#conv.C18") || strings.Contains(n, "writeHTML2FAAuthPage#conv.C18")
+		},
+		run: func(r *Report, o *Obligation, sr *SolveResult) ReplayResult {
+			m := parseModel(sr.Model)
+			// the destination itself, or (when the model only fixes what url.String() returned) that string
+			v, ok := m["p_loginDestination"]
+			var alt string
+			for k, x := range m {
+				if strings.HasPrefix(k, "r_String_") {
+					alt = x
+				}
+			}
+			cands := []string{}
+			if alt != "" {
+				cands = append(cands, alt)
+			}
+			if ok {
+				cands = append(cands, v)
+			}
+			var last ReplayResult
+			for _, c := range cands {
+				hx, _ := hexOfSMTString(c)
+				if b, err := hex.DecodeString(hx); err == nil && !strings.HasPrefix(string(b), "/") {
+					hx = hex.EncodeToString(append([]byte("/x?"), b...)) // a path-absolute destination carrying the model's text in its query
+				}
+				out, conf := goReplay(r, "cmd/keymasterd", "keymasterd_replay_test.go", "TestVerifReplayLoginPageMarkup", map[string]string{"login_destination": hx})
+				last = ReplayResult{Confirmed: conf, Summary: replaySummary(out), Inputs: map[string]string{"login_destination": c}, Output: truncate(out, 4000), Driver: "TestVerifReplayLoginPageMarkup"}
+				if conf {
+					return last
+				}
+			}
+			if len(cands) == 0 {
+				return ReplayResult{Summary: "model has no value for the destination"}
+			}
+			return last
+		},
+	})
+}
